@@ -219,7 +219,8 @@ Call(lim, tl) ==
 
 \* hasOut/hasErr: the returned option is Some; out/err: its content (<<>> when None)
 \* textOk: for the text-returning variant, the strings equal the lossy UTF-8 decoding of the returned bytes
-Ret(kind, hasOut, out, hasErr, err, textOk) ==
+\* strict: the communicator reads only what it returns (the poll-based one); the thread-based one reads ahead by design
+RetS(kind, hasOut, out, hasErr, err, textOk, strict) ==
   /\ inCall
   /\ inCall' = FALSE
   /\ LET r == [o \in Outs |-> IF o = "out" THEN out ELSE err]
@@ -252,9 +253,17 @@ Ret(kind, hasOut, out, hasErr, err, textOk) ==
           \cup V(limit >= 0 => \A o \in Outs : IsPrefixOf(nd[o], written[o]), "C03_pieces_consecutive_and_exact")
           \cup V(limit >= 0 /\ kind = "ok" /\ allEmpty => \A o \in Outs \cap piped : nd[o] = written[o],
                  "C03_pieces_consecutive_and_exact")
+          \* whatever the library has taken out of a pipe it hands to the caller with this very return (in the result or
+          \* with the error): nothing sits in a buffer of its own where the next poll() cannot see it
+          \cup V(strict /\ kind # "panic" => \A o \in Outs \cap piped : Len(nd[o]) = Len(written[o]) - Len(buf[o]),
+                 "C03_nothing_read_is_held_back")
+          \cup V(strict /\ kind # "panic" /\ dl # NoTime => \A o \in Outs \cap piped : Len(nd[o]) = Len(written[o]) - Len(buf[o]),
+                 "C04_nothing_read_is_held_back")
           \cup V(kind = "timedout" => dl # NoTime /\ TLt(dl, TAdd(now, Ms(1))), "C04_truthful")
   /\ UNCHANGED <<piped, cap, k, short, input, flood, buf, pOpen, cOpen, cPend, cAlive, now, limit, dl, sawEof,
                  written, inAcc, cRecv, cEof, pwDone, after, noProg, sanity>>
+
+Ret(kind, hasOut, out, hasErr, err, textOk) == RetS(kind, hasOut, out, hasErr, err, textOk, TRUE)
 
 \* Memory was refused (fault injection) and the process aborted, as a Rust program does when an allocation fails:
 \* the exchange is over, nothing was returned, nothing is claimed.
